@@ -373,10 +373,17 @@ func execCopy(c *CopyCase, st *Stats) *Violation {
 				only[ni] = true
 			}
 		default:
-			only[op.Node] = true
+			// results and host-call traces were compared above; the heap dump of
+			// the touched node is taken for mutations only
+			if op.Kind == "mut" {
+				only[op.Node] = true
+			}
 		}
 		if oi%3 == 2 || oi == len(c.Ops)-1 {
 			only = nil
+		}
+		if only != nil && len(only) == 0 {
+			continue
 		}
 		if v := checkAll(when); v != nil {
 			return v
